@@ -39,7 +39,7 @@ def line_to_circ_model(line) -> CircRNAModel:
     introns = attrs['INTRON']
     tx_id = attrs['TRANSCRIPT_ID']
     gene_name = attrs['GENE_SYMBOL']
-    genomic_location = attrs.get('GENOMIC_LOCATION', '')
+    genomic_location = attrs.get('GENOMIC_POSITION', '')
 
     fragments:List[SeqFeature] = []
     for j, (position, length) in enumerate(zip(offsets, lengths)):
